@@ -57,6 +57,11 @@ type Case struct {
 	// the first message must not change because of them (the guarantee is about the stored body, not about
 	// the return value of one call).
 	Later [][]Part `json:"later,omitempty"`
+	// Again: a text that was set as body of the SAME message before the text under test (the user edits the
+	// draft; a received message gets a new body). The guarantees are about the text set last.
+	Again []Part `json:"again,omitempty"`
+	// Reparsed: the message was populated by ReadFrom (a stored draft) before the text under test is set.
+	Reparsed bool `json:"reparsed,omitempty"`
 	Shape string `json:"shape,omitempty"` // generator families used (information only)
 }
 
@@ -233,6 +238,8 @@ func describe(text string, in []byte) (s shape) {
 }
 
 type outcome struct {
+	again    bool // another body had been set on the same message before
+	reparsed bool // ... and the message had been serialised and parsed back before the text under test was set
 	later   int // later SetBody calls on other messages after which the stored body was re-checked
 	skipped bool
 	sh      shape
@@ -264,6 +271,24 @@ func run(c Case) (sig, msg string, o outcome) {
 		m.SetDate(time.Date(2020, 2, 3, 4, 5, 0, 0, time.UTC))
 		m.AddTo("N0CALL")
 		m.SetSubject("c18")
+		if c.Again != nil {
+			if at := (Case{Parts: c.Again}).Text(); true {
+				if ab, ok := toLatin1(at); ok && !bareCR(ab) {
+					if m.SetBody(at) == nil {
+						o.again = true
+					}
+				}
+			}
+			if c.Reparsed && o.again {
+				if b0, err := m.Bytes(); err == nil {
+					m0 := new(fbb.Message)
+					if m0.ReadFrom(bytes.NewReader(b0)) == nil {
+						m = m0
+						o.reparsed = true
+					}
+				}
+			}
+		}
 		if setErr = m.SetBody(text); setErr != nil {
 			return
 		}
@@ -377,6 +402,10 @@ func run(c Case) (sig, msg string, o outcome) {
 		}
 	}
 
+	// 4a. exactly one Body header field
+	if n := bytes.Count(append([]byte("\r\n"), head...), []byte("\r\nBody: ")); n != 1 {
+		return "body-header-mismatch", fmt.Sprintf("the serialised message has %d Body header fields (an earlier body had been set on the same message: %v)", n, o.again), o
+	}
 	// 4. Body header == BodySize() == stored length
 	if bodyHdr != strconv.Itoa(len(stored)) || bodySize != len(stored) || !bytes.Contains(head, []byte("\r\nBody: "+strconv.Itoa(len(stored))+"\r\n")) {
 		return "body-header-mismatch", fmt.Sprintf("stored body is %d bytes, Body header %q, BodySize() %d", len(stored), bodyHdr, bodySize), o
@@ -561,6 +590,13 @@ func genCase(t *rapid.T) Case {
 			c.Parts = append(c.Parts, Part{term, rep})
 		}
 	}
+	// history: in a quarter of the cases another body was set on the same message before
+	if rapid.IntRange(0, 3).Draw(t, "again") == 0 {
+		u := rapid.SampledFrom([]string{"draft ", "x", "é", "first version\n", "\n", "0123456789"}).Draw(t, "again_unit")
+		c.Again = []Part{{u, rapid.IntRange(1, 150).Draw(t, "again_rep")}}
+		c.Reparsed = rapid.Bool().Draw(t, "reparsed")
+		shapes = append(shapes, "again")
+	}
 	// history: in half of the cases 1..3 later texts are set on other messages afterwards
 	if rapid.Bool().Draw(t, "history") {
 		n := rapid.IntRange(1, 3).Draw(t, "n_later")
@@ -611,6 +647,8 @@ func account(c Case, o outcome) {
 	lab(s.noFinalNL, "no-final-newline")
 	lab(s.emptyLines > 0, "empty-lines")
 	lab(o.later > 0, "history:stored-body-rechecked-after-later-SetBody")
+	lab(o.again, "history:second-SetBody-on-the-same-message")
+	lab(o.reparsed, "history:SetBody-on-a-message-populated-by-ReadFrom")
 	if harness.WantSample() && s.maxLine > maxLine && s.nonASCII && len(c.Parts) <= 8 {
 		harness.Sample(render(c, o))
 	}
